@@ -18,6 +18,14 @@ package congestion
 // packet sent and reported lost, 100 ms apart - every episode is executed on the real code
 // and judged by the same oracle), so that the window sits at, or within one loss reduction
 // of, the two-packet floor, in congestion avoidance, with a cutback already on record.
+// A start state also fixes the CONFIGURED initial packet size (Config.InitialPacketSize,
+// 1200..1452, handed to the constructor as initialMaxDatagramSize; default 1280): the
+// "pacer-init" parts and one start state of the floor parts construct the sender with a
+// non-default size - through the internal constructor with a shrunk window, or through the
+// exported NewCubicSender exactly as sentPacketHandler does - and no SetMaxDatagramSize
+// call precedes the history (path MTU discovery disabled / no probe acknowledged yet). The
+// full packet size of the model, the two-packet floor, the maximum and the burst of the
+// pacer clause all follow the configured size from the first event on.
 // Flights: "fill(class)" = an obedient sender sends packets of one size class for as long
 // as CanSend(bytes in flight) allows, so that several packets of one window of packets are
 // outstanding when losses and acknowledgements of that flight are interleaved.
@@ -33,7 +41,8 @@ package congestion
 //      two-packet floor
 //   P  for every interval [t_i, t_j] between two authorised sends: bytes authorised in it
 //      <= burst + 1.25*bw*(t_j-t_i), bw = largest estimate in the interval,
-//      burst = max(10 datagrams of the largest datagram size in force in the interval,
+//      burst = max(10 datagrams of the largest datagram size in force in the interval
+//      [not less than the default initial packet size 1280, see c20BurstFloorMDS],
 //      1.25*bw*2ms). A packet counts as authorised the way the send loop decides it
 //      (sentPacketHandler.SendMode): the sender's HasPacingBudget(now) is true - that
 //      releases a packet of up to the CURRENT maximum datagram size - or, for a smaller
@@ -200,6 +209,15 @@ type c20Cfg struct {
 type c20Start struct {
 	pkts   protocol.ByteCount
 	losses int
+	mds    protocol.ByteCount // configured initial packet size handed to the constructor (0: the default, 1280)
+	prod   bool               // construct through the exported NewCubicSender (32 packets), as sentPacketHandler does
+}
+
+func (st c20Start) size() protocol.ByteCount {
+	if st.mds == 0 {
+		return c20MDS0
+	}
+	return st.mds
 }
 
 type c20Rec struct {
@@ -220,11 +238,12 @@ type c20Inst struct {
 	largestR  protocol.PacketNumber // largest retransmittable packet number sent
 	horizon   protocol.PacketNumber // largestR when cwnd was last cut because of a loss
 	mds       protocol.ByteCount
+	mds0      protocol.ByteCount // configured initial packet size (what the constructor was given)
 	mtuN      int
 	rtoN      int
 	rttN      int
 	hugeUsed  bool
-	started   bool // a start state was chosen (parts with cfg.starts only)
+	started   bool          // a start state was chosen (parts with cfg.starts only)
 	burstDone bool          // no clock step since the last burst (a second burst would be empty)
 	minRTTAck time.Duration // MinRTT at the previous ack event
 	recs      []c20Rec
@@ -232,7 +251,7 @@ type c20Inst struct {
 }
 
 func newC20Inst(cfg *c20Cfg) *c20Inst {
-	in := &c20Inst{cfg: cfg, clk: &c20Clock{now: c20T0}, rtt: utils.NewRTTStats(), mds: c20MDS0,
+	in := &c20Inst{cfg: cfg, clk: &c20Clock{now: c20T0}, rtt: utils.NewRTTStats(), mds: c20MDS0, mds0: c20MDS0,
 		largestR: protocol.InvalidPacketNumber, horizon: protocol.InvalidPacketNumber}
 	init := cfg.initPkts * c20MDS0
 	if cfg.belowMax > 0 {
@@ -415,6 +434,18 @@ func c20Delta(a, b protocol.ByteCount) string {
 
 func (in *c20Inst) bw() uint64 { return uint64(in.s.BandwidthEstimate() / BytesPerSecond) }
 
+// c20BurstFloorMDS: the statement says "one burst" and is silent about the datagram size a
+// burst is counted in. The reference model counts 10 datagrams of the largest size in force
+// in the interval, but never of less than the protocol's default initial packet size (1280):
+// a connection CONFIGURED with a smaller initial packet size (1200..1279) may still be given
+// the burst of the default size (the real pacer sizes its bucket with the package constant
+// until the first SetMaxDatagramSize: 12800 bytes = 10.67 packets of 1200). See FINDINGS.md,
+// observation O1. Set to 0 for the reading "10 datagrams of the configured size" (the
+// unchanged tree then fails with start(1200) burst paced: 13200 bytes in 8 ms, bound 12481).
+const c20BurstFloorMDS = c20MDS0
+
+func (in *c20Inst) burstMDS() protocol.ByteCount { return max(in.mds, c20BurstFloorMDS) }
+
 // sample folds the current bandwidth estimate / datagram size into every open interval.
 func (in *c20Inst) sample() {
 	if !in.cfg.pacer {
@@ -424,7 +455,7 @@ func (in *c20Inst) sample() {
 	for i := range in.recs {
 		r := &in.recs[i]
 		r.bwMax = max(r.bwMax, bw)
-		r.mdsMax = max(r.mdsMax, in.mds)
+		r.mdsMax = max(r.mdsMax, in.burstMDS())
 	}
 }
 
@@ -462,7 +493,7 @@ func (in *c20Inst) sendOne(size protocol.ByteCount, retr bool, countPacer bool) 
 		gate := in.s.HasPacingBudget(now)
 		auth = gate || in.s.pacer.Budget(now) >= size
 		if auth {
-			in.recs = append(in.recs, c20Rec{t: now, bwMax: in.bw(), mdsMax: in.mds})
+			in.recs = append(in.recs, c20Rec{t: now, bwMax: in.bw(), mdsMax: in.burstMDS()})
 			for i := range in.recs {
 				r := &in.recs[i]
 				r.sum += size
@@ -472,11 +503,16 @@ func (in *c20Inst) sendOne(size protocol.ByteCount, retr bool, countPacer bool) 
 					if now != r.t {
 						cls = "interval"
 					}
-					if in.mds > c20MDS0 {
+					if in.mds0 > c20MDS0 {
+						cls += ":configured-initial-size-above-default"
+					} else if in.mds0 < c20MDS0 {
+						cls += ":configured-initial-size-below-default"
+					}
+					if in.mds > in.mds0 {
 						cls += ":after-mtu-increase"
 					}
 					return true, explore.Failf("pacer-over-authorised:"+in.algo()+":"+cls,
-						"pacer authorised %d bytes in an interval of %d ns (packets sent at %d..%d ns after start; the last one: %d bytes, HasPacingBudget=%v, budget %d); bound: one burst + 1.25*bw*dt = %d bytes with bw=%d B/s (largest estimate in the interval), datagram size %d",
+						"pacer authorised %d bytes in an interval of %d ns (packets sent at %d..%d ns after start; the last one: %d bytes, HasPacingBudget=%v, budget %d); bound: one burst + 1.25*bw*dt = %d bytes with bw=%d B/s (largest estimate in the interval), burst counted in datagrams of %d bytes",
 						r.sum, now.Sub(r.t), r.t.Sub(c20T0), now.Sub(c20T0), size, gate, in.s.pacer.Budget(now), allowed, r.bwMax, r.mdsMax)
 				}
 			}
@@ -634,7 +670,15 @@ func (in *c20Inst) Apply(op explore.Op) *explore.Fail {
 		explore.Must(!in.started && c.startMTU == 0 && in.nextPN == 0, "start: not the first event")
 		st := c.starts[op.A]
 		in.started = true
-		in.s = newCubicSender(in.clk, in.rtt, &utils.ConnectionStats{}, c.reno, c20MDS0, st.pkts*c20MDS0, c20MaxPkts*c20MDS0, nil)
+		// the configured initial packet size is a constructor argument; nothing else tells the
+		// sender (or its pacer) about it before the first event
+		in.mds0 = st.size()
+		in.mds = in.mds0
+		if st.prod {
+			in.s = NewCubicSender(in.clk, in.rtt, &utils.ConnectionStats{}, in.mds0, c.reno, nil)
+		} else {
+			in.s = newCubicSender(in.clk, in.rtt, &utils.ConnectionStats{}, c.reno, in.mds0, st.pkts*in.mds0, c20MaxPkts*in.mds0, nil)
+		}
 		shrinks := 0
 		for i := 0; i < st.losses; i++ {
 			if _, f := in.sendOne(in.mds, true, false); f != nil {
@@ -653,7 +697,7 @@ func (in *c20Inst) Apply(op explore.Op) *explore.Fail {
 				return f
 			}
 		}
-		in.outcome = fmt.Sprintf("start%d shrinks=%d atfloor=%v %s", op.A, shrinks, in.s.GetCongestionWindow() == 2*in.mds, in.phase())
+		in.outcome = fmt.Sprintf("start%d size=%d shrinks=%d atfloor=%v %s", op.A, in.mds0, shrinks, in.s.GetCongestionWindow() == 2*in.mds, in.phase())
 	case "fill":
 		size := in.sizeOf(op.A)
 		n := 0
@@ -801,8 +845,8 @@ func (in *c20Inst) Key() string {
 		skip = c20SkipCCNoPacer
 	}
 	sb.WriteString(canon.Dump(in.s, canon.Options{TimeBase: base, SkipField: skip}))
-	fmt.Fprintf(&sb, "|pn=%d lr=%d hz=%d mds=%d mtu=%d rto=%d rtt=%d huge=%v bd=%v mra=%d st=%v|", in.nextPN, in.largestR, in.horizon,
-		in.mds, in.mtuN, in.rtoN, in.rttN, in.hugeUsed, in.burstDone, in.minRTTAck, in.started)
+	fmt.Fprintf(&sb, "|pn=%d lr=%d hz=%d mds0=%d mds=%d mtu=%d rto=%d rtt=%d huge=%v bd=%v mra=%d st=%v|", in.nextPN, in.largestR, in.horizon,
+		in.mds0, in.mds, in.mtuN, in.rtoN, in.rttN, in.hugeUsed, in.burstDone, in.minRTTAck, in.started)
 	for _, r := range in.led.runs {
 		fmt.Fprintf(&sb, "%d+%dx%d@%d,", r.lo, r.n, r.size, int64(r.t)-base)
 	}
